@@ -305,6 +305,8 @@ def python_to_decimal(value: Union[Decimal, int, float, str]) -> str:
     """The lexical space of xs:decimal has no exponent: str(Decimal('0E-40')) is not in it."""
     if isinstance(value, Decimal) and value.is_finite():
         return format(value, 'f')
+    elif isinstance(value, float) and value == value and value not in (float('inf'), float('-inf')):
+        return format(Decimal(repr(value)), 'f')  # repr(1e-07) has an exponent
     return str(value)
 
 
